@@ -82,6 +82,8 @@ def model(D, late_global=False, disturb=None):
     tdecl += "int[0,99] lfun() { return v; }\n"                                   # tfun
     tdecl += "int[0,pp] w;\n"
     tdecl += "int[0, pp * 2 + 1] w2;\nint[-pp, pp] w3;\nbool wa[pp];\nstruct { int[0, pp + pp] f; } wr;\n"      # the parameter inside compound bounds and sizes
+    # ... and behind names of template-local types
+    tdecl += "typedef int[0, pp] wr_t;\nwr_t w5;\nwr_t wa5[2];\ntypedef struct { int[0, pp + 1] f; wr_t g; } wrec_t;\nwrec_t w6;\nint wi5[wr_t];\n"
     params = "const int pp" + d("tparam", ", const int[0,%d] v" % UB["tparam"])
     sel = "%s : int[0,%d]" % ("v" if "select" in D else "w3", UB["select"])
     t = X.template("T", params=params, decl=tdecl,
@@ -336,7 +338,7 @@ def run_shard(arg):
             else:
                 part.outcome("query-bound")
         # the parameter inside compound bounds, sizes and field types of members: every occurrence is replaced by the process's argument
-        for mem in ("w2", "w3", "wa", "wr.f"):
+        for mem in ("w2", "w3", "wa", "wr.f", "w5", "wa5", "w6.f", "w6.g", "w6", "wi5"):
             for proc, arg in (("P", 7), ("P2", 5)):
                 q3 = "E<> %s.%s == %s.%s" % (proc, mem, proc, mem)
                 qr3 = w.call_safe({"op": "queries", "ctx": {"kind": "xml", "text": doc}, "items": [q3], "symtypes": True}, timeout=60)
